@@ -32,7 +32,7 @@ struct RunRecord {
   std::vector<sim::SignalOp> signals; // with fired flags
   int exit_status() const { return exited ? exit_code : ret; }
   // AMPLS-API sessions: per round, the return codes of the API calls and the .sol files on the simulated disk afterwards
-  struct Round { int rc_solve = 0, rc_report = 0; std::map<std::string, std::string> sol_files; int stub_objs = -1; };
+  struct Round { int rc_solve = 0, rc_report = 0; std::string solve_exc; std::map<std::string, std::string> sol_files; int stub_objs = -1; };
   std::vector<Round> rounds;
   int rc_load = 0;
   std::vector<std::string> api_messages;
